@@ -87,6 +87,7 @@ def rules_for(pid):
         "C05": [
             ("O-unsub-order", lambda c: RO.o_unsub_order(c.P, c.E), 8),
             ("SUB", lambda c: RO.sub_rules(c.P, c.E), 6),
+            ("F-atomic-take", lambda c: RO.f_atomic_take(c.P, c.E), 3),
             ("O-typestate", lambda c: RO.o_typestate(
                 c.P, c.E, ("callback after unsubscribe", "is_subscribed not false", "slot refilled")), 8),
             ("S-gate", lambda c: RO.s_gate(c.P, c.E), 4),
@@ -97,6 +98,7 @@ def rules_for(pid):
             ("S-finalize-shape", lambda c: RO.s_finalize_shape(c.P, c.E), 4),
             ("R1", lambda c: RH.r1_retry_drops_first(c.P, c.E, c.H), 3),
             ("S-fresh-serial", lambda c: RO.s_fresh_serial(c.P, c.E), 2),
+            ("SUB-live-gate", lambda c: RO.sub_live_gate(c.P, c.E), 1),
         ],
         "C07": [
             ("L1", lambda c: RL.l1_reentrancy(c.P, c.E, c.H), 32),
@@ -116,6 +118,7 @@ def rules_for(pid):
             ("S-finalize-after-terminal", lambda c: RO.s_finalize_after_terminal(c.P, c.E), 6),
             ("S-finalize-shape", lambda c: RO.s_finalize_shape(c.P, c.E), 4),
             ("O-unsub-order", lambda c: RO.o_unsub_order(c.P, c.E), 8),
+            ("SUB-live-gate", lambda c: RO.sub_live_gate(c.P, c.E), 1),
         ],
         "C18": [
             ("W", lambda c: RW.w_rules(c.P, c.E), 7),
@@ -152,9 +155,8 @@ def rules_for(pid):
             ("L4", lambda c: RL.l4_producer_polling(c.P, c.E), 6),
         ],
         "C19": [
-            ("A19a", lambda c: RJ.a19a(c.P, c.E), 2),
             ("A19b", lambda c: RJ.a19b(c.P, c.E), 4),
-            ("F-atomic-take", lambda c: RO.f_atomic_take(c.P, c.E), 3),
+            ("S-gate", lambda c: RO.s_gate(c.P, c.E), 4),
         ],
         "C14": [
             ("K-fresh-state", lambda c: RK.k_fresh_state(c.P, c.E), 48),
@@ -238,8 +240,7 @@ EXPLANATION = {
            "first post on every path, or every posted task aborts on every path); Q7 threads are spawned only by "
            "NewThreadScheduler::new, once; Q8 the worker leaves its loop iff aborted (sticky); S-finalize-shape: "
            "on_finalize runs at every end; L4 task loops poll.  The `within one period` bound is NOT decided.",
-    "C19": "A19a: each terminal kind is invoked solely through the atomic take (F-atomic-take: test+clear under one write "
-           "guard) => at most one error and at most one complete callback under any interleaving.  A19b: both terminal "
+    "C19": "A19b: both terminal "
            "methods deliver only on the true edge of ONE common test-and-set (a bool cell read and set under a single write "
            "guard; verified by interpreting the arbiter's MIR over the flag) => at most one terminal of either kind; the "
            "winner clears the next slot before invoking the terminal callback => nothing is delivered once that callback "
